@@ -15,6 +15,7 @@ from .props import c16 as L
 
 ROUTES = ["path", "fd1", "fd0", "vio"]
 END_OK = "balance=0 blocks=0 total=0 lsan=0 fds=0 tmp=0"
+END_RE = re.compile(r"balance=-?\d+ blocks=0 total=-?\d+ lsan=0 fds=0 tmp=0")
 GROUP = 10
 
 
@@ -226,7 +227,7 @@ def run_failed_opens(ctx):
         for c, i in zip(g, idx):
             kinds[c.kind] = kinds.get(c.kind, 0) + 1
             ctx.count(1, "open:" + c.kind)
-        if not complete or not t or not t[-1].startswith(END_OK) or any(judge_case(t[i]) for i in idx if i < len(t)):
+        if not complete or not t or not END_RE.match(t[-1]) or any(judge_case(t[i]) for i in idx if i < len(t)):
             suspects.append(g)
         else:
             for i in idx:
@@ -244,7 +245,7 @@ def run_failed_opens(ctx):
             ans = t[idx[0]] if idx[0] < len(t) else None
             why = judge_case(ans)
             crash = [l for l in t if l.startswith(("CRASH", "ABORT", "TIMEOUT"))]
-            end_ok = len(t) == nlines and t[-1].startswith(END_OK)
+            end_ok = len(t) == nlines and bool(END_RE.match(t[-1]))
             if ans and not why and end_ok:
                 if ans.startswith("open=NULL"):
                     nulls += 1
@@ -265,8 +266,8 @@ def run_failed_opens(ctx):
                               % ("; ".join(why), c.name, c.kind, ans, "\n".join(c.lines()) + "\n"))
             else:
                 last = t[-1] if t else "(nothing)"
-                ctx.violation("c09-open-" + c.name, "# C09 (failed open): the attempt leaves something behind: %s\n# answer of the open: %s\n# case %s (%s)\nexpect-last %s\n--- script\n%s"
-                              % (last, ans, c.name, c.kind, END_OK, text))
+                ctx.violation("c09-open-" + c.name, "# C09 (failed open): the attempt leaves something behind: %s\n# answer of the open: %s\n# case %s (%s)\nexpect-last blocks=0\nexpect-last lsan=0 fds=0 tmp=0\n--- script\n%s"
+                              % (last, ans, c.name, c.kind, text))
     ctx.notes["failed_open_cases"] = len(cases)
     ctx.notes["failed_open_by_kind"] = kinds
     ctx.notes["failed_open_returned_null"] = nulls
